@@ -277,7 +277,7 @@ let judge_unit ins outs : verdict =
              let sizes = List.map (fun (n, _, _) -> n) chunks in
              let grants = if s.shaping && iz s.hdr_left > 0 && sizes <> [] then List.tl sizes else sizes in
              let garr = Array.of_list grants in
-             let g (i : nat) = let k = int_of_nat i in if k < Array.length garr then zi garr.(k) else huge in
+             let g (i : nat) = let k = int_of_nat i in if k < Array.length garr then (zi garr.(k), zi garr.(k)) else (huge, huge) in
              let ((s', evs), r) = write g s b in
              if List.exists is_action_ev evs then nontrivial := true;
              (match r with
@@ -501,12 +501,14 @@ let judge_integration ins outs : verdict =
        | [rg] ->
            let rgc = chars_of_hex rg in
            let sh = List.assoc rgc active in
+           if short && first_close sh.sh_acts rs' = None then
+             raise (Fail ("bytes_prefix", Printf.sprintf "no close action applies but the client received only %d of %d bytes" (List.length delivered) (List.length data)));
            if not (ok_close sh.sh_acts rs' (zi hl) data delivered short) then
              raise (Fail ("close_at_k", Printf.sprintf "rs=%d hl=%d written=%d delivered=%d first_close=%s"
                             rs hl (List.length data) (List.length delivered)
                             (match first_close sh.sh_acts rs' with Some k -> string_of_int (iz k) | None -> "-")));
            let (s, evs0) = open_ctx true sh.sh_acts sh.sh_thr true rs' (zi hl) (Some lat) O in
-           let ((_, evs), r) = write (fun _ -> huge) s data in
+           let ((_, evs), r) = write (fun _ -> (huge, huge)) s data in
            let total = delays_before_last_byte evs in
            let el = ios (tl1 (tl1 el)) in
            if el < total then
@@ -546,7 +548,7 @@ let judge_keepalive ins outs : verdict =
       raise (Fail ("only_matching", Printf.sprintf "%s %d (mode %s) matches no shape but was cut or altered: %d of %d bytes"
                      what !nresp mode (List.length delivered) (List.length data)));
     let (s, _) = respond !prev true [] [] false Z0 Z0 in
-    let ((s', evs), _) = write (fun _ -> huge) s data in
+    let ((s', evs), _) = write (fun _ -> (huge, huge)) s data in
     if el < delays_before_last_byte evs then raise (Fail ("halt_delay_total", "latency not observed"));
     prev := s' in
   let outs = if mode = "mitm" then
@@ -585,7 +587,7 @@ let judge_keepalive ins outs : verdict =
           tunnel := true;
           (* its head went through the connection as an unshaped response *)
           let (s, _) = respond !prev true [] [] false Z0 Z0 in
-          let ((s', _), _) = write (fun _ -> huge) s ['H'] in   (* consumes the latency-once *)
+          let ((s', _), _) = write (fun _ -> (huge, huge)) s ['H'] in   (* consumes the latency-once *)
           prev := s';
           go items outs'
         end
@@ -631,7 +633,7 @@ let judge_keepalive ins outs : verdict =
                               !nresp mode rs hl (List.length data) (List.length delivered)
                               (match first_close acts rs' with Some k -> string_of_int (iz k) | None -> "-")));
              let (s, evs0) = respond !prev true acts sh.sh_thr true rs' (zi hl) in
-             let ((s', evs), r) = write (fun _ -> huge) s data in
+             let ((s', evs), r) = write (fun _ -> (huge, huge)) s data in
              let total = delays_before_last_byte evs in
              if el < total then
                raise (Fail ("halt_delay_total", Printf.sprintf "response %d (mode %s) took %dus, configured halts and latency add up to %dus" !nresp mode el total));
@@ -662,18 +664,29 @@ let judge_rate ins outs : verdict =
         | [_; by; b] -> (ios b, (match chars_of_hex by with d :: ['-'] -> Char.code d - 48 | _ -> 0))
         | _ -> raise (Dis "bad-T"))
     | [] -> raise (Dis "rate-without-throttle") in
+  (* the shape's shared bucket (max_global_bandwidth), 0 = none *)
+  let global = match List.filter (fun t -> starts "S:" t) cfgt with
+    | t :: _ -> (match split ':' t with [_; _; g] -> ios g | _ -> 0)
+    | [] -> 0 in
+  let eff = if global > 0 && global < bw then global else bw in
   (match outs with
    | s :: _ :: rs when s = "st200" ->
+       let maxel = ref 0 and total = ref 0 in
        List.iter (fun r ->
            match split ':' r with
            | [w; e; el; mx; same] ->
                if e <> "ok" || ios (tl1 w) <> n || same <> "same1" then
-                 raise (Fail ("bytes_prefix", "bytes through a throttle differ from the bytes written: " ^ r));
+                 raise (Fail ("bytes_prefix", Printf.sprintf "bytes through the throttled write differ from the bytes written (local %d, global %d per interval): %s" bw global r));
                let el = ios (tl1 (tl1 el)) and mx = ios (tl1 (tl1 mx)) in
-               if mx > bw then raise (Fail ("throttle_rate", Printf.sprintf "a single grant of %d bytes exceeds the bandwidth %d" mx bw));
-               if not (ok_rate (zi bw) (zi (n - skip)) (zi el) (zi 150000)) then
-                 raise (Fail ("throttle_rate", Printf.sprintf "%d bytes at %d bytes per drain interval took only %dus" n bw el))
-           | _ -> raise (Dis "bad-rate-out")) rs
+               if mx > eff then raise (Fail ("throttle_rate", Printf.sprintf "a single grant of %d bytes exceeds the bandwidth %d" mx eff));
+               if not (ok_rate (zi eff) (zi (n - skip)) (zi el) (zi 150000)) then
+                 raise (Fail ("throttle_rate", Printf.sprintf "%d bytes at %d bytes per drain interval took only %dus" n eff el));
+               if el > !maxel then maxel := el;
+               total := !total + n
+           | _ -> raise (Dis "bad-rate-out")) rs;
+       (* all connections together through the shared bucket *)
+       if global > 0 && not (ok_rate (zi global) (zi (!total - skip * List.length rs)) (zi !maxel) (zi 150000)) then
+         raise (Fail ("throttle_rate", Printf.sprintf "%d bytes of %d connections through the shared bucket of %d bytes per interval took only %dus" !total (List.length rs) global !maxel))
    | _ -> raise (Dis "rate-status"));
   VOk true
 
